@@ -155,6 +155,12 @@ def dtype_probe(F):
     F.check("C16", "probe/array-constructor-keeps-caller-dtype-names", dt.names == ("px", "py", "pz"), dict(after=dt.names))
 
 
+def _need_setter(w, cname):
+    p = getattr(type(w), cname, None)
+    if not isinstance(p, property) or p.fset is None:
+        raise AttributeError(cname)
+
+
 def aliasing_probe(F):
     """Results may share coordinate sub-objects with their operands; an in-place update of the *result* must not reach the operand
     (SymPy and object backends, every system and flavor, two-step histories: derive, then update the derived vector in place)"""
@@ -169,6 +175,9 @@ def aliasing_probe(F):
     derive = [("rotateZ", lambda v: v.rotateZ(0.3)), ("scale2D", lambda v: v.scale2D(2.0)), ("neg2D", lambda v: v.neg2D), ("rotateX", lambda v: v.rotateX(0.2)), ("scale3D", lambda v: v.scale3D(2.0)),
               ("to_Vector3D", lambda v: v.to_Vector3D()), ("to_Vector4D", lambda v: v.to_Vector4D()), ("+v", lambda v: +v), ("to_xy", lambda v: v.to_xy()), ("to_rhophi", lambda v: v.to_rhophi())]
     update = [("+=", lambda w, u: w.__iadd__(u)), ("-=", lambda w, u: w.__isub__(u)), ("*=", lambda w, u: w.__imul__(2.0)), ("/=", lambda w, u: w.__itruediv__(4.0))]
+    # ... and the coordinate setters (generic and momentum spellings) of the derived vector
+    for cname in ("x", "y", "rho", "phi", "z", "theta", "eta", "t", "tau", "px", "pt", "pz", "E", "mass"):
+        update.append((f"set-{cname}", lambda w, u, cname=cname: (_need_setter(w, cname), setattr(w, cname, 0.625))))
     for s in AR.systems():
         names = AR.names_of(s)
         d = len(s) + 1
